@@ -1,18 +1,23 @@
 ------------------------------- MODULE Coll -------------------------------
 (***************************************************************************)
-(* Implementation-shaped specification ("Impl" reading) of the collection  *)
-(* family of futures-buffered:                                             *)
+(* Implementation-shaped specification ("Impl" reading) of futures-buffered *)
 (*   fub = FuturesUnorderedBounded      fu = FuturesUnordered              *)
 (*   fob = FuturesOrderedBounded        fo = FuturesOrdered                *)
 (*   mb  = MergeBounded                 mu = MergeUnbounded                *)
+(*   bu / bo  = buffered_unordered / buffered_ordered                      *)
+(*   tbu / tbo = try_buffered_unordered / try_buffered_ordered             *)
+(*   fe  = for_each_concurrent          ja / tja = join_all / try_join_all *)
 (* One group = one PinSlotMap (LIFO free list) + one WakerList (per-slot   *)
 (* "queued" flag, FIFO ready queue, one-shot task-waker registration).     *)
-(* The poll loop of futures_unordered_bounded.rs (budget MAX), the group   *)
-(* loop of futures_unordered.rs / merge_unbounded.rs (cursor, remove,      *)
-(* keep-last, re-insert), the re-arm loop of merge_bounded.rs and the      *)
-(* park-and-continue loop of futures_ordered*.rs are transcribed           *)
-(* literally.  Children are nondeterministic (answer, self-wake, wake of   *)
-(* another child's stored - possibly stale - waker inside the poll).       *)
+(* Transcribed literally: the poll loop of futures_unordered_bounded.rs    *)
+(* (budget MAX), the group loop of futures_unordered.rs /                  *)
+(* merge_unbounded.rs (cursor, remove, keep-last, re-insert), the re-arm   *)
+(* loop of merge_bounded.rs, the park-and-continue loop of                 *)
+(* futures_ordered*.rs, the fill loops and termination tests of            *)
+(* buffered/*.rs and try_buffered.rs, the loop of for_each.rs and the      *)
+(* result buffers of join_all.rs / try_join_all.rs.                        *)
+(* Children and the upstream are nondeterministic (answer, self-wake, wake *)
+(* of another child's stored - possibly stale - waker inside the poll).    *)
 (*                                                                         *)
 (* Every action emits the events the Rust harness would record for it;     *)
 (* the Abs machine consumes them in the same step (variable m), so TLC     *)
@@ -22,28 +27,32 @@
 (***************************************************************************)
 EXTENDS Abs
 
-CONSTANTS Kind,      \* one of the six kinds above
-          Cap0,      \* capacity of the (first) group
-          NInit,     \* bounded kinds: number of children given at construction (from_iter; then Cap0 = NInit), else 0
-          NC,        \* children 1..NC, pushed in this order
+CONSTANTS Kind,      \* one of the kinds above
+          Cap0,      \* capacity of the (first) group / the limit n of an adapter
+          NInit,     \* bounded kinds and joins: children given at construction (from_iter; then the capacity is NInit)
+          NC,        \* children 1..NC, pushed / pulled in this order
           Budget,    \* MAX of poll_inner_no_remove (61 in the code)
           NW,        \* task wakers 1..NW
           MaxPolls,  \* polls per child
           MaxItems,  \* items per merged source
           MaxWakes,  \* waker invocations by the environment between polls
           GenMode,   \* TRUE: record emitted events in hist
-          CursorFix, \* TRUE: repaired group rotation (advance the cursor after a yield)
+          CursorFix, \* TRUE: repaired group rotation
           AllowFront,\* ordered kinds: push_front too
           Perpetual, \* TRUE: children may be polled without bound (np saturates at MaxPolls): starvation lassos
-          Mut        \* "none", or the name of a deliberately broken variant (non-vacuity controls)
+          Mut        \* "none", or the name of a deliberately broken variant (non-vacuity controls, legacy defects)
 
 VARIABLES st, m, hist
 vars == <<st, m, hist>>
 
 Grouped  == Kind \in {"fu", "fo", "mu"}
-IsOrd    == Kind \in {"fob", "fo"}
+IsOrd    == Kind \in {"fob", "fo", "bo", "tbo"}
 IsMrg    == Kind \in {"mb", "mu"}
+IsAd     == Kind \in AdapterKinds
+IsTry    == Kind \in {"tbu", "tbo", "tja"}
+IsJoin   == Kind \in JoinKinds
 Children == 1..NC
+ErrId(x) == 100000 + x        \* identity of the x-th upstream error item
 
 Key(b, i) == b * 100000 + i
 NewGrp(cap) == [cap |-> cap, sl |-> [i \in 0..cap-1 |-> 0], free |-> [j \in 1..cap |-> j - 1],
@@ -54,40 +63,54 @@ SetToSeq(S) == CHOOSE f \in [1..Cardinality(S) -> S] : \A a, b \in 1..Cardinalit
 
 \* ----------------------------------------------------------------- observers, as the code computes them
 SumFilled(s) == LET RECURSIVE F(_) F(k) == IF k = 0 THEN 0 ELSE Filled(s.blk[s.groups[k]]) + F(k - 1) IN F(Len(s.groups))
-ObsEv(s) ==
-  LET np == Cardinality(s.parked)
-      len == CASE Kind = "fub" -> Filled(s.blk[1])
+ObsEvs(s) ==
+  IF Kind \in {"fe", "ja", "tja"} THEN <<>>
+  ELSE
+  LET np  == Cardinality(s.parked)
+      run == Filled(s.blk[1])
+      len == CASE Kind = "fub" -> run
                [] Kind = "fu"  -> s.rem
-               [] Kind = "fob" -> Filled(s.blk[1]) + np
+               [] Kind = "fob" -> run + np
                [] Kind = "fo"  -> s.rem + np
-               [] Kind = "mb"  -> -1
                [] Kind = "mu"  -> SumFilled(s)
+               [] OTHER -> -1
       coll == Kind \in CollKinds
-  IN [e |-> "obs", len |-> len, empty |-> IF Kind = "mb" THEN FALSE ELSE len = 0,
-      term |-> IF coll THEN len = 0 ELSE FALSE,
-      cap |-> IF Kind = "fub" THEN s.blk[1].cap ELSE -1,
-      lo |-> IF coll THEN len ELSE 0, hi |-> IF coll THEN len ELSE -1, rem |-> IF coll THEN len ELSE 0]
+      \* adapters: upstream gives the exact hint (r, Some(r)); queue_len = len() of the inner collection
+      r   == s.upt - s.upn
+      ql  == IF Kind \in {"bo", "tbo"} THEN run + np ELSE run
+      legacy == Mut = "legacy_tryhint" /\ Kind \in {"tbu", "tbo"} /\ s.up = "done"
+      alo == IF s.up = "done" THEN (IF legacy THEN 0 ELSE ql) ELSE r + ql
+  IN <<[e |-> "obs", len |-> IF IsAd THEN -1 ELSE len, empty |-> IF Kind = "mb" \/ IsAd THEN FALSE ELSE len = 0,
+        term |-> IF coll THEN len = 0 ELSE FALSE,
+        cap |-> IF Kind = "fub" THEN s.blk[1].cap ELSE -1,
+        lo |-> IF coll THEN len ELSE IF IsAd THEN alo ELSE 0,
+        hi |-> IF coll THEN len ELSE IF IsAd THEN alo ELSE -1,
+        rem |-> IF coll THEN len ELSE IF IsAd THEN r + run + np ELSE 0]>>
 
 InitGrp == IF NInit = 0 THEN NewGrp(Cap0)
            ELSE [cap |-> NInit, sl |-> [i \in 0..NInit-1 |-> i + 1], free |-> <<>>,
                  q |-> [j \in 1..NInit |-> j - 1], fl |-> [i \in 0..NInit-1 |-> TRUE], reg |-> 0]
-Init0 == [ groups |-> <<1>>, blk |-> <<InitGrp>>, cursor |-> 0, rem |-> 0,
+\* upt = number of items the upstream of an adapter will produce in total (chosen initially)
+Init0(upt) ==
+         [ groups |-> <<1>>, blk |-> <<InitGrp>>, cursor |-> 0, rem |-> 0,
            cs |-> [c \in Children |-> IF c <= NInit THEN "held" ELSE "unborn"],
            loc |-> [c \in Children |-> IF c <= NInit THEN <<1, c - 1>> ELSE <<0, 0>>],
            np |-> [c \in Children |-> 0], ni |-> [c \in Children |-> 0], nextc |-> NInit + 1,
            pc |-> "idle", pw |-> 0, cnt |-> 0, iter |-> 0, cb |-> 1, ci |-> 0, cc |-> 0, rk |-> 0,
            parked |-> {}, idx |-> [c \in Children |-> IF c <= NInit THEN c - 1 ELSE 0], inc |-> NInit, outc |-> 0,
-           out |-> {}, nw |-> 0 ]
+           out |-> {}, nw |-> 0,
+           up |-> "open", upt |-> upt, upn |-> 0, upp |-> 0, upe |-> 0, should |-> FALSE,
+           res |-> {}, failed |-> {}, taken |-> FALSE, resp |-> "P" ]
 
-InitEvs == <<[e |-> "reset", kind |-> Kind, cap |-> IF NInit = 0 THEN Cap0 ELSE NInit, run |-> 1]>>
+InitEvs(s0) == <<[e |-> "reset", kind |-> Kind, cap |-> IF NInit = 0 THEN Cap0 ELSE NInit, run |-> 1, uptotal |-> s0.upt]>>
            \o [c \in 1..NInit |-> [e |-> "push_b", c |-> c]]
            \o <<[e |-> "new", res |-> "ok", al |-> 0]>>
            \o [c \in 1..NInit |-> [e |-> "push", c |-> c, how |-> "init", res |-> "ok", same |-> TRUE, al |-> 0]]
-           \o <<ObsEv(Init0)>>
+           \o ObsEvs(s0)
 
-Init == /\ st = Init0
-        /\ m = Run(Fresh, InitEvs)
-        /\ hist = IF GenMode THEN InitEvs ELSE <<>>
+Init == /\ st \in (IF IsAd THEN {Init0(n) : n \in 0..NC} ELSE {Init0(0)})
+        /\ m = Run(Fresh, InitEvs(st))
+        /\ hist = IF GenMode THEN InitEvs(st) ELSE <<>>
 
 Emit(evs) == /\ m' = Run(m, evs)
              /\ hist' = IF GenMode THEN hist \o evs ELSE hist
@@ -106,15 +129,53 @@ WakeCall(s, c) ==
 \* WakerList::push(i): flag swap and enqueue, no notify
 Arm(s, b, i) == IF s.blk[b].fl[i] THEN s ELSE [s EXCEPT !.blk[b].fl[i] = TRUE, !.blk[b].q = Append(@, i)]
 
-\* ----------------------------------------------------------------- the poll, up to the next child poll
+\* insert child c into group b (which has room)
+Insert(s, b, c) ==
+  LET g == s.blk[b] i == Head(g.free) IN
+  Arm([s EXCEPT !.blk[b].sl[i] = c, !.blk[b].free = Tail(@), !.cs[c] = "held", !.loc[c] = <<b, i>>,
+                !.nextc = @ + 1], b, i)
+
+\* ----------------------------------------------------------------- the poll, up to the next nondeterministic point
 RetEv(res, c, k) == [e |-> "ret", res |-> res, c |-> c, k |-> k, al |-> 0]
 Finish(s, evs, res, c, k) ==
   LET s1 == [s EXCEPT !.pc = "idle", !.out = IF res = "item" THEN @ \cup {<<c, k>>} ELSE @]
-  IN <<s1, evs \o <<RetEv(res, c, k), ObsEv(s1)>>>>
+  IN <<s1, evs \o <<RetEv(res, c, k)>> \o ObsEvs(s1)>>
+\* join_all / try_join_all: the whole buffer is handed out (slot order = input order); -1 = never written
+VecOf(s) == IF s.taken THEN <<>>
+            ELSE [j \in 1..NInit |-> IF j \in s.res THEN j ELSE -1]
+FinishVec(s, evs) ==
+  LET v == VecOf(s)
+      s1 == [s EXCEPT !.pc = "idle", !.taken = TRUE, !.res = {},
+                      !.out = @ \cup {<<v[j], 0>> : j \in {x \in 1..Len(v) : v[x] # -1}}]
+  IN <<s1, Append(evs, [e |-> "vec", v |-> v, al |-> 0])>>
+\* try_join_all: an input failed.  Repaired code: release what was written, cancel the rest.
+FinishErr(s, evs, c) ==
+  LET legacy == Mut = "legacy_tryjoin"
+      kids == {x \in Children : s.cs[x] = "held"}
+      ks   == SetToSeq({s.loc[x][2] : x \in kids})
+      cds  == [j \in 1..Len(ks) |-> [e |-> "cdrop", c |-> s.blk[1].sl[ks[j]], addr |-> Key(1, ks[j])]]
+      rs   == SetToSeq(s.res)
+      ods  == [j \in 1..Len(rs) |-> [e |-> "odrop", c |-> rs[j], k |-> 0]]
+      s1 == IF legacy THEN [s EXCEPT !.pc = "idle", !.out = @ \cup {<<c, 0>>}]
+            ELSE [s EXCEPT !.pc = "idle", !.out = @ \cup {<<c, 0>>}, !.res = {}, !.taken = TRUE,
+                           !.cs = [x \in Children |-> IF x \in kids THEN "done" ELSE @[x]],
+                           !.blk[1].sl = [i \in DOMAIN @ |-> 0], !.blk[1].free = SetToSeq(DOMAIN s.blk[1].sl)]
+  IN <<s1, evs \o (IF legacy THEN <<>> ELSE ods \o cds) \o <<[e |-> "err", c |-> c, al |-> 0]>>>>
 
 RECURSIVE Go(_, _, _)
 Go(s, evs, k) ==
-  CASE k = "inner" ->
+  CASE k = "fill" ->       \* adapters: the fill loop in front of the inner poll
+         LET g == s.blk[1]
+             held == Filled(g) + (IF Kind \in {"bo", "tbo"} /\ Mut # "legacy_ordfill" THEN Cardinality(s.parked) ELSE 0)
+         IN IF held < g.cap /\ s.up = "open" THEN <<[s EXCEPT !.pc = "up"], evs>>
+            ELSE Go(s, evs, "ord_top")
+    [] k = "ord_top" ->    \* futures_ordered*.rs: an output that is next in line is handed out before polling anything
+         LET hd == {c \in s.parked : s.idx[c] = s.outc} IN
+         IF IsOrd /\ hd # {}
+         THEN LET c == CHOOSE x \in hd : TRUE IN
+              Finish([s EXCEPT !.parked = @ \ {c}, !.outc = @ + 1], evs, "item", c, 0)
+         ELSE Go(s, evs, "inner")
+    [] k = "inner" ->
          IF Grouped
          THEN IF s.groups = <<>> THEN Go(s, evs, "in_none")
               ELSE Go([s EXCEPT !.iter = Len(s.groups)], evs, "loop")
@@ -147,7 +208,7 @@ Go(s, evs, k) ==
               IF gs = <<>> THEN Go([s EXCEPT !.groups = <<b>>], evs, "in_none")
               ELSE IF s.cursor = Len(gs)
                    THEN Go([s EXCEPT !.groups = Append(gs, b), !.cursor = 0], evs, "loop")
-                   ELSE Go([s EXCEPT !.groups = gs], evs, "loop")
+                   ELSE Go([s EXCEPT !.groups = gs, !.iter = IF CursorFix THEN @ + 1 ELSE @], evs, "loop")
     [] k = "g_pending" ->
          IF ~Grouped THEN Go(s, evs, "in_pending")
          ELSE Go([s EXCEPT !.cursor = @ + 1], evs, "loop")
@@ -155,25 +216,33 @@ Go(s, evs, k) ==
          IF ~Grouped THEN Go(s, evs, "in_ready")
          ELSE Go([s EXCEPT !.rem = IF Kind = "mu" THEN @ ELSE @ - 1,
                            !.cursor = IF CursorFix THEN @ + 1 ELSE @], evs, "in_ready")
-    [] k = "in_none"    -> Finish(s, evs, "none", 0, 0)
-    [] k = "in_pending" -> Finish(s, evs, "pending", 0, 0)
-    [] k = "in_ready"   ->
-         IF ~IsOrd THEN Finish(s, evs, "item", s.cc, s.rk)
-         ELSE IF s.idx[s.cc] = s.outc THEN Finish([s EXCEPT !.outc = @ + 1], evs, "item", s.cc, 0)
-         ELSE Go([s EXCEPT !.parked = @ \cup {s.cc}], evs, "inner")
+    \* ---- what the layer around the inner unordered poll does with its answer
+    [] k = "in_none" ->
+         CASE IsAd /\ Kind # "fe" -> IF s.up = "done" THEN Finish(s, evs, "none", 0, 0) ELSE Finish(s, evs, "pending", 0, 0)
+           [] Kind = "fe" -> IF s.up = "done" THEN Finish(s, evs, "done", 0, 0)
+                             ELSE IF s.should THEN Go([s EXCEPT !.should = FALSE], evs, "fill")
+                             ELSE Finish(s, evs, "pending", 0, 0)
+           [] IsJoin -> FinishVec(s, evs)
+           [] OTHER -> Finish(s, evs, "none", 0, 0)
+    [] k = "in_pending" ->
+         IF Kind = "fe" /\ s.should THEN Go([s EXCEPT !.should = FALSE], evs, "fill")
+         ELSE IF Kind = "mu" /\ Mut # "legacy_mu_pending" /\ SumFilled(s) = 0
+              THEN Finish(s, evs, "none", 0, 0)          \* repaired: every group drained during this call
+         ELSE Finish(s, evs, "pending", 0, 0)
+    [] k = "in_ready" ->
+         CASE Kind = "fe" -> Go([s EXCEPT !.should = FALSE], evs, "fill")
+           [] IsJoin -> IF Kind = "tja" /\ s.resp = "X" THEN FinishErr([s EXCEPT !.failed = @ \cup {s.cc}], evs, s.cc)
+                        ELSE Go([s EXCEPT !.res = @ \cup {s.cc}], evs, "inner")
+           [] IsOrd -> IF s.idx[s.cc] = s.outc THEN Finish([s EXCEPT !.outc = @ + 1], evs, "item", s.cc, 0)
+                       ELSE Go([s EXCEPT !.parked = @ \cup {s.cc}], evs, "inner")
+           [] OTHER -> Finish(s, evs, "item", s.cc, s.rk)
 
 \* ----------------------------------------------------------------- environment actions
 PushEvs(c, how, res) == <<[e |-> "push_b", c |-> c],
                           [e |-> "push", c |-> c, how |-> how, res |-> res, same |-> TRUE, al |-> 0]>>
 
-\* insert child c into group b (which has room)
-Insert(s, b, c) ==
-  LET g == s.blk[b] i == Head(g.free) IN
-  Arm([s EXCEPT !.blk[b].sl[i] = c, !.blk[b].free = Tail(@), !.cs[c] = "held", !.loc[c] = <<b, i>>,
-                !.nextc = @ + 1], b, i)
-
 Push(how) ==
-  /\ st.pc = "idle" /\ st.nextc <= NC
+  /\ st.pc = "idle" /\ st.nextc <= NC /\ ~IsAd /\ ~IsJoin
   /\ how = "front" => (IsOrd /\ AllowFront)
   /\ LET c    == st.nextc
          last == st.groups[Len(st.groups)]
@@ -184,7 +253,7 @@ Push(how) ==
                  ELSE [st EXCEPT !.inc = @ + 1, !.idx[c] = st.inc]
      IN IF ~full
         THEN LET s1 == Insert([s0 EXCEPT !.rem = IF Kind \in {"fu", "fo"} THEN @ + 1 ELSE @], last, c) IN
-             /\ st' = s1 /\ Emit(PushEvs(c, how, "ok") \o <<ObsEv(s1)>>)
+             /\ st' = s1 /\ Emit(PushEvs(c, how, "ok") \o ObsEvs(s1))
         ELSE IF Grouped
         THEN LET nb == Len(st.blk) + 1
                  s1 == [s0 EXCEPT !.blk = Append(@, NewGrp(2 * st.blk[last].cap)), !.groups = Append(@, nb),
@@ -192,21 +261,44 @@ Push(how) ==
                  s2 == Insert(s1, nb, c) IN
              /\ st' = s2
              /\ Emit(<<[e |-> "push_b", c |-> c],
-                       [e |-> "push", c |-> c, how |-> how, res |-> "ok", same |-> TRUE, al |-> 2]>> \o <<ObsEv(s2)>>)
+                       [e |-> "push", c |-> c, how |-> how, res |-> "ok", same |-> TRUE, al |-> 2]>> \o ObsEvs(s2))
         ELSE \* bounded and full: try_push hands the future back, nothing changes
              /\ st' = [st EXCEPT !.cs[c] = "refused", !.nextc = @ + 1]
-             /\ Emit(PushEvs(c, how, "full") \o <<ObsEv(st)>>)
+             /\ Emit(PushEvs(c, how, "full") \o ObsEvs(st))
 
 PollBegin(w) ==
   /\ st.pc = "idle"
-  /\ LET s0 == [st EXCEPT !.pw = w]
+  /\ LET s0 == [st EXCEPT !.pw = w, !.should = FALSE]
          pe == <<[e |-> "poll", w |-> w]>>
-         hd == {c \in st.parked : st.idx[c] = st.outc}
-         r  == IF IsOrd /\ hd # {}
-               THEN LET c == CHOOSE x \in hd : TRUE IN
-                    Finish([s0 EXCEPT !.parked = @ \ {c}, !.outc = @ + 1], pe, "item", c, 0)
-               ELSE Go(s0, pe, "inner")
+         r  == IF IsAd THEN Go(s0, pe, "fill") ELSE Go(s0, pe, "ord_top")
      IN st' = r[1] /\ Emit(r[2])
+
+\* the upstream of an adapter answers
+UpStep ==
+  /\ st.pc = "up"
+  /\ \E resp \in {"I", "P", "E", "X"} :
+       /\ resp = "I" => (st.upn < st.upt /\ st.nextc <= NC)
+       /\ resp = "X" => (IsTry /\ st.upn < st.upt /\ st.upe < 1)
+       /\ resp = "P" => st.upp < 2
+       /\ resp = "E" => st.upn = st.upt
+       /\ LET s0 == [st EXCEPT !.pc = "idle"] IN
+          CASE resp = "I" ->
+                 LET c  == st.nextc
+                     s1 == IF IsOrd THEN [s0 EXCEPT !.inc = @ + 1, !.idx[c] = st.inc] ELSE s0
+                     s2 == Insert([s1 EXCEPT !.upn = @ + 1, !.should = TRUE], 1, c)
+                     ue == <<[e |-> "up", resp |-> "I", c |-> c]>>
+                     r  == IF Kind = "fe" THEN Go(s2, ue, "inner") ELSE Go(s2, ue, "fill")
+                 IN st' = r[1] /\ Emit(r[2])
+            [] resp = "P" ->
+                 LET r == Go([s0 EXCEPT !.upp = @ + 1], <<[e |-> "up", resp |-> "P", c |-> 0]>>, "ord_top")
+                 IN st' = r[1] /\ Emit(r[2])
+            [] resp = "E" ->
+                 LET r == Go([s0 EXCEPT !.up = "done"], <<[e |-> "up", resp |-> "E", c |-> 0]>>, "ord_top")
+                 IN st' = r[1] /\ Emit(r[2])
+            [] resp = "X" ->     \* `s.poll_next(cx)?` : the error is forwarded at once
+                 LET x == ErrId(st.upn + 1)
+                     r == Finish([s0 EXCEPT !.upn = @ + 1, !.upe = @ + 1], <<[e |-> "up", resp |-> "X", c |-> x]>>, "item", x, -1)
+                 IN st' = r[1] /\ Emit(r[2])
 
 \* the child being polled answers; it may first invoke its own waker or the stored waker of another child
 Stash(s) == {c \in Children : s.np[c] > 0}
@@ -215,18 +307,23 @@ ChildStep ==
   /\ LET c == st.cc b == st.cb i == st.ci IN
      /\ Perpetual \/ st.np[c] < MaxPolls
      /\ \E act \in {0} \cup Stash(st) \cup {c} :
-        \E resp \in (IF IsMrg THEN {"P", "I", "E"} ELSE {"P", "R"}) :
-          /\ resp = "I" => st.ni[c] < MaxItems
-          /\ LET s0 == [st EXCEPT !.np[c] = IF @ < MaxPolls THEN @ + 1 ELSE @]
+        \E resp \in (IF IsMrg THEN {"P", "I", "E"} ELSE IF IsTry THEN {"P", "R", "X"} ELSE {"P", "R"}) :
+          /\ resp = "I" => (Perpetual \/ st.ni[c] < MaxItems)
+          /\ resp = "X" => Cardinality(st.failed) < 2
+          /\ LET s0 == [st EXCEPT !.np[c] = IF @ < MaxPolls THEN @ + 1 ELSE @, !.resp = resp]
                  wk == IF act = 0 THEN <<s0, <<>>>> ELSE WakeCall(s0, act)
                  s1 == wk[1]
-                 k  == IF resp = "I" THEN s1.ni[c] + 1 ELSE 0
-                 co == <<[e |-> "cout", c |-> c, resp |-> resp, k |-> k]>>
+                 k  == IF resp = "I" THEN (IF s1.ni[c] < MaxItems THEN s1.ni[c] + 1 ELSE MaxItems) ELSE 0
+                 \* a unit future (for_each) completes without an output value: logged as "E"
+                 co == <<[e |-> "cout", c |-> c, resp |-> IF Kind = "fe" /\ resp = "R" THEN "E" ELSE resp, k |-> k]>>
                  cd == <<[e |-> "cdrop", c |-> c, addr |-> Key(b, i)]>>
                  vac == [s1 EXCEPT !.blk[b].sl[i] = 0, !.blk[b].free = <<i>> \o @, !.cs[c] = "done"]
                  r  == CASE resp = "P" -> Go([s1 EXCEPT !.pc = "idle"], wk[2] \o co, "grp")
-                         [] resp = "R" -> Go([vac EXCEPT !.pc = "idle", !.rk = 0], wk[2] \o co \o cd, "g_ready")
-                         [] resp = "I" -> Go(Arm([s1 EXCEPT !.pc = "idle", !.ni[c] = k, !.rk = k], b, i),
+                         [] resp \in {"R", "X"} ->
+                              IF Mut = "no_vacate" THEN Go([s1 EXCEPT !.pc = "idle", !.rk = 0], wk[2] \o co, "g_ready")
+                              ELSE Go([vac EXCEPT !.pc = "idle", !.rk = 0], wk[2] \o co \o cd, "g_ready")
+                         [] resp = "I" -> Go((IF Mut = "no_rearm" THEN [s1 EXCEPT !.pc = "idle", !.ni[c] = k, !.rk = k]
+                                              ELSE Arm([s1 EXCEPT !.pc = "idle", !.ni[c] = k, !.rk = k], b, i)),
                                              wk[2] \o co, "g_ready")
                          [] resp = "E" -> Go([vac EXCEPT !.pc = "idle"], wk[2] \o co \o cd, "enter")
              IN st' = r[1] /\ Emit(r[2])
@@ -235,30 +332,32 @@ Wake(c) ==
   /\ st.pc \in {"idle", "dead"} /\ st.np[c] > 0 /\ st.nw < MaxWakes
   /\ LET r == WakeCall([st EXCEPT !.nw = @ + 1], c) IN st' = r[1] /\ Emit(r[2])
 
-\* drop the collection: children in group order, slot order; then the parked outputs
+\* drop the collection: children in group order, slot order; then the parked / buffered outputs
 DropColl ==
   /\ st.pc = "idle"
   /\ LET kids == {c \in Children : st.cs[c] = "held"}
          ks   == SetToSeq({Key(st.loc[c][1], st.loc[c][2]) : c \in kids})
          byKey(k) == CHOOSE c \in kids : Key(st.loc[c][1], st.loc[c][2]) = k
          cds  == [j \in 1..Len(ks) |-> [e |-> "cdrop", c |-> byKey(ks[j]), addr |-> ks[j]]]
-         ps   == SetToSeq(st.parked)
+         owned == st.parked \cup (IF Mut = "legacy_joinleak" THEN {} ELSE st.res)
+         ps   == SetToSeq(owned)
          ods  == [j \in 1..Len(ps) |-> [e |-> "odrop", c |-> ps[j], k |-> 0]]
      IN /\ st' = [st EXCEPT !.pc = "dead", !.cs = [c \in Children |-> IF c \in kids THEN "done" ELSE @[c]],
-                            !.parked = {}]
+                            !.parked = {}, !.res = {}]
         /\ Emit(<<[e |-> "dropc_b"]>> \o cds \o ods \o <<[e |-> "dropc_e"]>>)
 
 \* the caller drops what it received; end of the run
 End ==
   /\ st.pc = "dead"
-  /\ LET os  == SetToSeq({t[1] * 1000 + t[2] : t \in st.out})
-         ods == [j \in 1..Len(os) |-> [e |-> "odrop", c |-> os[j] \div 1000, k |-> os[j] % 1000]]
+  /\ LET os  == SetToSeq({t[1] * 10 + (t[2] + 1) : t \in st.out})
+         ods == [j \in 1..Len(os) |-> [e |-> "odrop", c |-> os[j] \div 10, k |-> (os[j] % 10) - 1]]
      IN /\ st' = [st EXCEPT !.pc = "end", !.out = {}]
         /\ Emit(ods \o <<[e |-> "end"]>>)
 
 Next == \/ \E how \in {"back", "front"} : Push(how)
         \/ \E w \in 1..NW : PollBegin(w)
         \/ ChildStep
+        \/ UpStep
         \/ \E c \in Children : Wake(c)
         \/ DropColl
         \/ End
@@ -280,11 +379,12 @@ LocSound == \A c \in Children : st.cs[c] = "held" => st.blk[st.loc[c][1]].sl[st.
 ObligQueued == \A c \in Children :
                  (st.cs[c] = "held" /\ c \in DOMAIN m.ch /\ m.ch[c].nt /\ ~(st.pc = "child" /\ st.cc = c))
                  => st.blk[st.loc[c][1]].fl[st.loc[c][2]]
-\* every non-last group is non-empty or is about to be visited; the last group is kept
 GroupsSound == /\ Len(st.groups) >= 1
                /\ \A a, d \in 1..Len(st.groups) : st.groups[a] = st.groups[d] => a = d
+\* the ordering layer: positions of running and parked futures form the window outc .. inc-1
+WindowSound == IsOrd => LET live == {c \in Children : st.cs[c] = "held"} \cup st.parked IN
+                          /\ \A c \in live : st.outc <= st.idx[c] /\ st.idx[c] < st.inc
+                          /\ \A c, d \in live : c # d => st.idx[c] # st.idx[d]
 
 View == <<st, m>>
-\* Gen: print the recorded run when it ends
-EmitScn == (st.pc = "end") => PrintT(<<"SCN", ToString(Len(hist))>>)
 =============================================================================
